@@ -39,7 +39,7 @@ def gen(rng, tier):
             steps.append({"kind": kind, "fn": rng.choice(FN_MAP), "err": rng.choice(ERR_MAP)})
         else:
             steps.append({"kind": kind, "fn": rng.choice(FN_FLAT), "err": rng.choice(ERR_FLAT)})
-    spec = {"form": form, "steps": steps, "input": rng.choice(["val", "val", "exc"]),
+    spec = {"form": form, "steps": steps, "input": rng.choice(["val", "val", "val", "exc", "exc", "exc-falsy"]),
             "input_at": rng.choice([None, 0, 0.05, 0.1]) if form == "f" else rng.choice([0, 0.05]),
             "base": rng.choice(["sync", "pool"]), "inner_at": rng.choice([0.02, 0.1]),
             "cancel_at": rng.choice([None, None, None, 0, 0.05, 0.1]), "settle": 5.0}
@@ -51,7 +51,7 @@ def gen(rng, tier):
 def model(spec):
     """Sequential reference: returns ('val', v) | ('exc', tag) | ('typeerror',) | ('cancelled',) and
     expected call counts per step {(k,'fn'|'err'): 0|1}."""
-    cur = ("val", ("in",)) if spec["input"] == "val" else ("exc", ("in",))
+    cur = ("val", ("in",)) if spec["input"] == "val" else ("exc", ("in",))   # exc-falsy: same, the object is merely falsy
     calls = {}
     for k, st in enumerate(spec["steps"]):
         flat = st["kind"] == "flat_map"
@@ -160,8 +160,8 @@ def run(spec, env):
         env.rec("work")
         if spec["input_at"]:
             sim.sleep(spec["input_at"])
-        if spec["input"] == "exc":
-            raise env.exc(("in",))
+        if spec["input"] != "val":
+            raise env.exc(("in",), "FalsyErr" if spec["input"] == "exc-falsy" else "ScriptedError")
         return ("in",)
 
     raw = None
@@ -180,8 +180,8 @@ def run(spec, env):
         raw = SpyFuture(env, "in")
         if spec["input_at"] is None:
             raw.set_running_or_notify_cancel()
-            if spec["input"] == "exc":
-                raw.set_exception(env.exc(("in",)))
+            if spec["input"] != "val":
+                raw.set_exception(env.exc(("in",), "FalsyErr" if spec["input"] == "exc-falsy" else "ScriptedError"))
             else:
                 raw.set_result(("in",))
         out = raw
@@ -206,8 +206,8 @@ def run(spec, env):
                 env.sleep(spec["input_at"])
             try:
                 if raw.set_running_or_notify_cancel():
-                    if spec["input"] == "exc":
-                        raw.set_exception(env.exc(("in",)))
+                    if spec["input"] != "val":
+                        raw.set_exception(env.exc(("in",), "FalsyErr" if spec["input"] == "exc-falsy" else "ScriptedError"))
                     else:
                         raw.set_result(("in",))
             except Exception as e:
